@@ -220,6 +220,15 @@ def finite_nonneg(xs):
     return all(math.isfinite(x) for x in xs), all(x >= 0 for x in xs)
 
 
+def net_key(prod, want, w):
+    """which way the net-of-greenhouses clause fails: whole billions of kcals (quantised), too much (land counted twice) or too little (lost)"""
+    f = 1 - w / 100
+    if f > 0 and all(abs(p / f - round(p / f)) <= 1e-9 * max(1.0, abs(p / f)) for p in prod) and any(abs(x / f - round(x / f)) > 1e-6 for x in want):
+        return "crops-quantised"
+    i = next(j for j, (x, y) in enumerate(zip(prod, want)) if not tol_close([x], [y], scale=max(map(abs, want))))
+    return "crops-not-net-of-greenhouses" if abs(prod[i]) > abs(want[i]) else "crops-lost"
+
+
 def crop_case_sample(c):
     return {k: c[k] for k in ["NMONTHS", "COUNTRY_CODE", "BASELINE_CROP_KCALS", "SEASONALITY", "ADD_OUTDOOR_GROWING", "OG_USE_BETTER_ROTATION",
                               "ADD_GREENHOUSES", "RATIO_INCREASED_CROP_AREA", "INITIAL_CROP_AREA_FRACTION", "INITIAL_GLOBAL_CROP_AREA",
@@ -295,10 +304,7 @@ def check_crops(ctx, cases, prop, origin="generated"):
                     want.append(g * (1 - frac[i]) * (1 - w / 100))
                 if not tol_close(impl["production"], want):
                     i = next(j for j, (x, y) in enumerate(zip(impl["production"], want)) if not tol_close([x], [y], scale=max(map(abs, want))))
-                    key = "crops-not-net-of-greenhouses" if abs(impl["production"][i]) > abs(want[i]) else "crops-lost"
-                    if impl["production"][i] == math.floor(impl["production"][i] / (1 - w / 100) + 1e-9) * (1 - w / 100) and want[i] != impl["production"][i]:
-                        key = "crops-quantised"
-                    ctx.violation(key, "month %d: outdoor production %r, grown x (1 - greenhouse fraction) x (1 - waste) = %r"
+                    ctx.violation(net_key(impl["production"], want, w), "month %d: outdoor production %r, grown x (1 - greenhouse fraction) x (1 - waste) = %r"
                                   % (i, impl["production"][i], want[i]), case)
             # greenhouse area: zero until delay + 5, monotone, at most share x cropland
             if c["ADD_GREENHOUSES"]:
@@ -328,7 +334,7 @@ def variant_checks(ctx, cases, prop):
         n = c["NMONTHS"]
         case0 = {"series": "crops", "constants": full_case(c)}
         # homogeneity of degree one, also for arbitrarily small factors (C09_not_quantised / C08_homogeneous)
-        k = float(rng.choice([2.0, 0.5, 1e-3, 1e-6, 3.7, 1 / 3]))
+        k = float(c.get("_k") or rng.choice([2.0, 0.5, 1e-3, 1e-6, 3.7, 1 / 3]))
         c2 = copy.deepcopy(c)
         c2["BASELINE_CROP_KCALS"] = c["BASELINE_CROP_KCALS"] * k
         r2 = run_real_crops(ctx, c2)
@@ -418,6 +424,8 @@ def check_other_series(ctx, cases):
     lines, meta = [], []
     for c in cases:
         n = c["NMONTHS"]
+        if "_kd" in c:  # replay: everything fixed by the recorded case
+            continue
         kd = float(rng.choice([2100.0, 1800.0, rng.uniform(500, 4000)]))
         c["_kd"] = kd
         km = kd * 30
@@ -472,7 +480,8 @@ def check_other_series(ctx, cases):
         o = outs[ci_ * per:(ci_ + 1) * per]
         n, d, wdist = c["NMONTHS"], c["DELAY"], c["WASTE_DISTRIBUTION"]
         ci = {k: v for k, v in c.items() if not k.startswith("_")}
-        case = {"series": "other", "constants": full_case(ci), "kcals_daily": c["_kd"], "fish_percent": c["_pct"][:n + 2], "fishmode": c["_fishmode"]}
+        case = {"series": "other", "constants": full_case(ci), "kcals_daily": c["_kd"], "fish_percent": c["_pct"][:n + 2], "fishmode": c["_fishmode"],
+                "start_month": c.get("_start_month", START_MONTH)}
         Food = set_conversions(c["_kd"], c["POP"])
         supported = 24 <= n <= 120 and n % 12 == 0
         ctx.case(("other", repr(sorted(case["constants"].items())), c["_kd"], c["_fishmode"]), True,
@@ -586,7 +595,7 @@ def check_other_series(ctx, cases):
             else:
                 series_clauses(ctx, "stored-food", [stored], n, [s], case, expect_len=1)
         # ---- homogeneity on the real classes (one re-run with every baseline scaled by k)
-        k = float(rng.choice([2.0, 0.5, 1e-3, 3.7]))
+        k = float(c.get("_k") or rng.choice([2.0, 0.5, 1e-3, 3.7]))
         c2 = copy.deepcopy(ci)
         for key in ["FISH_DRY_CALORIC_ANNUAL", "HUMAN_INEDIBLE_FEED_BASELINE_MONTHLY", "FEED_KCALS", "BIOFUEL_KCALS", "SCP_GLOBAL_PRODUCTION_FRACTION",
                     "CS_GLOBAL_PRODUCTION_FRACTION"]:
@@ -769,7 +778,7 @@ def check_real_rows(ctx, rows, options, prop):
                         for i in range(n)]
                 if not tol_close(prod, want):
                     i = next(jj for jj, (x, y) in enumerate(zip(prod, want)) if not tol_close([x], [y], scale=max(map(abs, want))))
-                    ctx.violation("crops-not-net-of-greenhouses" if abs(prod[i]) > abs(want[i]) else "crops-lost",
+                    ctx.violation(net_key(prod, want, w),
                                   "%s month %d: outdoor production %r, grown x (1 - greenhouse fraction) x (1 - waste) = %r" % (row["iso3"], i, prod[i], want[i]), case)
             continue
         o9 = other_out[j * 9:(j + 1) * 9]
@@ -836,3 +845,43 @@ def check_real_rows(ctx, rows, options, prop):
             xs = [float(x) for x in np.atleast_1d(stored)]
             if any(x != 0 for x in xs):
                 ctx.violation("stored-food-not-zero", "stored food switched off but non-zero", case)
+
+
+# ------------------------------------------------------------------------------------------------ replay
+def restore_constants(d):
+    c = copy.deepcopy(d)
+    for k in ("BASELINE_CROP_KCALS", "BASELINE_CROP_FAT", "BASELINE_CROP_PROTEIN"):
+        if k in c:
+            c[k] = np.float64(c[k])
+    return c
+
+
+def replay(ctx, rep, prop):
+    """re-run exactly the recorded cases against the current /repo; a hit = the same violation key shows again"""
+    hits = []
+    for v in rep.get("violations", []):
+        case = v["case"]
+        before = len(ctx.violations)
+        ser = case.get("series")
+        if ser == "crops":
+            c = restore_constants(case["constants"])
+            if "k" in case:
+                c["_k"] = case["k"]
+            check_crops(ctx, [c], prop, origin="replay")
+            variant_checks(ctx, [c], prop)
+        elif ser == "other":
+            c = restore_constants(case["constants"])
+            c["_kd"], c["_pct"], c["_fishmode"] = case["kcals_daily"], list(case["fish_percent"]), case.get("fishmode", "rand")
+            c["_start_month"] = case.get("start_month", START_MONTH)
+            if "k" in case:
+                c["_k"] = case["k"]
+            check_other_series(ctx, [c])
+        elif ser == "fish-percent":
+            check_other_series(ctx, [])
+        elif ser == "row":
+            rows = [r for r in country_rows(ctx) if r["iso3"] == case["iso3"]]
+            check_real_rows(ctx, rows, [case["option"]], prop)
+        new = [x for x in ctx.violations[before:] if x["key"] == v["key"]]
+        if new:
+            hits.append(new[0])
+    return bool(hits), hits
